@@ -50,8 +50,7 @@ Proof. exact deser_value_by_name_doc. Qed.
 
 (* ---- rows (SerializeRow with flatten, DeserializeRow) ---------------------------------- *)
 
-(* [rdesc_wf d]: the column names of all (transitively flattened) leaves are pairwise different and
-   no flattened struct is empty *)
+(* [rdesc_wf d]: the column names of all (transitively flattened) leaves are pairwise different *)
 Theorem C16_by_name_ser_row : forall d cols, rdesc_wf d = true ->
   Permutation (map fst cols) (map rl_name (rd_leaves d)) ->
   (forall c l, In c cols -> lfind (fst c) (rd_leaves d) = Some l -> accepts (rl_ty l) (snd c) = true) ->
@@ -65,25 +64,13 @@ Theorem C16_roundtrip_row : forall d ls cols cells, rdesc_wf d = true ->
   gen_deser_row_by_name ls cols cells = Ok (map rback_value ls).
 Proof. exact roundtrip_row_by_name. Qed.
 
-(* KNOWN FINDING (docs/C16.md, class row-empty-flatten-hides-missing): with an EMPTY struct
-   flattened into the struct the generated check_missing can return Ok although a column is
-   missing.  Full-strength statement (refuted by the witness below):
-     forall d cols, nodupb (map rl_name (rd_leaves d)) = true ->
-       outcome_of (gen_ser_row_by_name d cols) = doc_ser_row_by_name d cols.
-   Proved: the statement for every descriptor without an empty flattened struct.  (The class the
-   driver tags, [known_empty_flatten d cols], is narrower than [has_empty_flatten d]: it also asks
-   that every column is bound and some field has no column; the theorem for descriptors WITH an empty
-   flattened struct on inputs outside that narrower class is not proved.) *)
-Theorem C16_excess_missing_ser_row_partial : forall d cols,
-  nodupb (map rl_name (rd_leaves d)) = true -> has_empty_flatten d = false ->
+(* full strength since fix fb90e43 in /repo (finding F16: an empty flattened struct used to hide
+   the missing columns of later flattened structs); holds for every flatten tree, empty structs
+   included *)
+Theorem C16_excess_missing_ser_row : forall d cols, rdesc_wf d = true ->
   outcome_of (gen_ser_row_by_name d cols) = doc_ser_row_by_name d cols /\
   gen_ser_row_by_name d cols <> Err EPanic.
-Proof. exact ser_row_by_name_doc'. Qed.
-
-Theorem C16_excess_missing_ser_row_refuted : exists d cols,
-  nodupb (map rl_name (rd_leaves d)) = true /\ known_empty_flatten d cols = true /\
-  gen_ser_row_by_name d cols = Ok [] /\ doc_ser_row_by_name d cols = Reject.
-Proof. exact ser_row_empty_flatten_refuted. Qed.
+Proof. exact ser_row_by_name_doc. Qed.
 
 Theorem C16_excess_missing_typeck_row : forall ls cols,
   NoDup (map rl_name (filter (fun f => negb (rl_skip f)) ls)) ->
@@ -225,6 +212,17 @@ Example C16_ex_rows : rdesc_wf ex_r = true /\
   gen_ser_row_by_name ex_r [("c", DInt); ("zz", DInt)]%string = Err (EValueMissingForColumn "zz"%string).
 Proof. repeat split; vm_compute; reflexivity. Qed.
 
+(* the shape of finding F16 (empty struct flattened before another flattened struct): the missing
+   column is reported *)
+Definition ex_e : rdesc :=
+  {| rd_ordered := false; rd_snc := false;
+     rd_fields := [ RFlat false false [];
+                    RFlat false false [ RLeaf (ex_l "c" None false false ROptInt None) ] ] |}%string.
+Example C16_ex_empty_flatten : rdesc_wf ex_e = true /\
+  gen_ser_row_by_name ex_e [] = Err (ENoColumnWithName "c"%string) /\
+  gen_ser_row_by_name ex_e [("c", DInt)]%string = Ok [None].
+Proof. repeat split; vm_compute; reflexivity. Qed.
+
 (* enforce_order: the declared order is accepted, a swapped one is not *)
 Definition ex_o : vdesc :=
   {| vd_ordered := true; vd_forbid := true; vd_snc := false;
@@ -245,8 +243,7 @@ Print Assumptions C16_excess_missing_typeck_value.
 Print Assumptions C16_excess_missing_deser_value.
 Print Assumptions C16_by_name_ser_row.
 Print Assumptions C16_roundtrip_row.
-Print Assumptions C16_excess_missing_ser_row_partial.
-Print Assumptions C16_excess_missing_ser_row_refuted.
+Print Assumptions C16_excess_missing_ser_row.
 Print Assumptions C16_excess_missing_typeck_row.
 Print Assumptions C16_excess_missing_deser_row.
 Print Assumptions C16_ordered_typeck_value.
